@@ -460,6 +460,7 @@ func execPool(sc *Scenario, cfg simrt.Config, st *core.Stats) (*simrt.Outcome, *
 				for _, o := range sc.Clients[i] {
 					simrt.Yield()
 					t := pool.Get()
+					simrt.Stamp() // a call has returned: progress, for the no-progress rule
 					if t == nil {
 						if sc.WithNew && viol == "" && !simrt.RaceEnabled {
 							viol = "Get returned nil although New is set"
@@ -495,6 +496,7 @@ func execPool(sc *Scenario, cfg simrt.Config, st *core.Stats) (*simrt.Outcome, *
 						ledger[t.id] = pooled
 					}
 					pool.Put(t)
+					simrt.Stamp()
 				}
 			})
 		}
@@ -563,6 +565,7 @@ func execPoolVal(sc *Scenario, cfg simrt.Config, st *core.Stats) (*simrt.Outcome
 				for _, o := range sc.Clients[i] {
 					simrt.Yield()
 					t := pool.Get()
+					simrt.Stamp() // a call has returned: progress, for the no-progress rule
 					for _, p := range t.Pad {
 						if p != t.ID && viol == "" && !simrt.RaceEnabled {
 							viol = fmt.Sprintf("task %d: Get returned a torn value %+v", me, t)
@@ -589,6 +592,7 @@ func execPoolVal(sc *Scenario, cfg simrt.Config, st *core.Stats) (*simrt.Outcome
 						ledger[t.ID] = pooled
 					}
 					pool.Put(t)
+					simrt.Stamp()
 				}
 			})
 		}
